@@ -276,4 +276,17 @@ def gradpsi(eq, mesh, spec):
     return out
 
 
-EXTRACTORS = {"gradpsi": gradpsi, "stencil": stencil, "wallinfo": wallinfo, "perp": perp, "onsurface": onsurface, "contours": contours, "profiles": profiles, "fieldpts": fieldpts, "beta": beta, "bpsign": bpsign, "eqinfo": eqinfo, "regions": regions, "meshmeta": meshmeta}
+def cornerpsi(eq, mesh, spec):
+    """psi of the equilibrium at the four corner arrays as written to the file"""
+    out = {}
+    nx, ny = mesh.nx, mesh.ny
+    for suf, loc in (("_corners", "corners"), ("_lower_right_corners", "lower_right_corners"), ("_upper_right_corners", "upper_right_corners"),
+                     ("_upper_left_corners", "upper_left_corners")):
+        R = np.array(getattr(mesh.Rxy, loc))[:nx, :ny]
+        Z = np.array(getattr(mesh.Zxy, loc))[:nx, :ny]
+        with np.errstate(all="ignore"):
+            out[suf] = np.array(eq.psi(R, Z), dtype=float)
+    return out
+
+
+EXTRACTORS = {"cornerpsi": cornerpsi, "gradpsi": gradpsi, "stencil": stencil, "wallinfo": wallinfo, "perp": perp, "onsurface": onsurface, "contours": contours, "profiles": profiles, "fieldpts": fieldpts, "beta": beta, "bpsign": bpsign, "eqinfo": eqinfo, "regions": regions, "meshmeta": meshmeta}
